@@ -1,5 +1,10 @@
 import Mp.Lockset
 import Mp.PoolProofs
+import Mp.ConcSys
 /-! C12 — safe under concurrency: the lock discipline orders every pair of conflicting accesses. -/
 #print axioms Lockset.lockset_orders
 #print axioms Pool.history_independent
+#print axioms Mp.ConcSys.calls_return_what_they_return_alone
+#print axioms Mp.ConcSys.mutual_exclusion
+#print axioms Mp.ConcSys.scanners_exclusive
+#print axioms Mp.ConcSys.caches_good
